@@ -858,7 +858,7 @@ RopeProg(a, b) ==
 C16Scope ==
   IF Scope \notin {"c16", "c16full"} THEN {} ELSE
   LET big == RE1 \cup RE2
-      small == IF Scope = "c16" THEN RE0Slim ELSE RE0 \cup RE2
+      small == IF Scope = "c16" THEN RE0Slim ELSE RE0
   IN {RopeProg(a, b) : a \in big, b \in small} \cup {RopeProg(a, b) : a \in small, b \in big}
 
 (* size of buffer() is not known to the generator; writers are placed at    *)
